@@ -75,7 +75,41 @@ def lifecycle(start, end, execute, shutdown, create="_create_dispatcher", valida
                     return False
         return True
 
+    def ids_threaded(tr, outcome, raised, env, ex, s):
+        """C12: the run id and span id that the RunStart hook returned are the ones handed to the execution loop (and so to
+        every node event), to the RunEnd hook and to the result; RunStart and RunEnd get the caller's parent span; one
+        dispatcher object serves all of them."""
+        def t(v):
+            return getattr(v, "t", None)
+        if not calls(tr, start):
+            return True
+        if any(k not in env for k in ("run_id", "run_span_id", "dispatcher")):
+            return not calls(tr, end) and not any(calls(tr, x) for x in execute)  # RunStart itself did not return
+        rid, sid, disp, parent = t(env["run_id"]), t(env["run_span_id"]), t(env["dispatcher"]), t(env["_parent_span_id"])
+        conds = []
+        for e in calls(tr, start):
+            a = e[2].get("args", [])
+            if len(a) < 3:
+                return False
+            conds += [t(a[0]) == disp, t(a[2]) == parent]
+        for x in execute:
+            for e in calls(tr, x):
+                kw = e[2].get("kwargs", {})
+                if not {"dispatcher", "run_id", "run_span_id"} <= set(kw):
+                    return False
+                conds += [t(kw["dispatcher"]) == disp, t(kw["run_id"]) == rid, t(kw["run_span_id"]) == sid]
+        for e in calls(tr, end):
+            a = e[2].get("args", [])
+            if len(a) < 6:
+                return False
+            conds += [t(a[0]) == disp, t(a[1]) == rid, t(a[2]) == sid, t(a[5]) == parent]
+        for e in tr:
+            if e[0] == "new" and e[1] == "RunResult" and len(e) > 3 and "run_id" in e[3]["fields"]:
+                conds.append(t(e[3]["fields"]["run_id"]) == rid)
+        return z3.And(*conds) if conds else True
+
     return [
+        {"name": "C12 the ids returned by RunStart are threaded to the execution loop, RunEnd and the result; parent span and dispatcher unchanged", "check": ids_threaded},
         {"name": "C08 validate-before-effects: every validator precedes dispatcher creation / emission / execution; a rejected call has no effect", "check": before_effects(validators, effects)},
         {"name": "C12 RunStart .. exactly one RunEnd on every terminated path; execution between them; shutdown last, at most once", "check": bracket(start, end, body=set(execute), shutdown=shutdown, paused_ok=True)},
         {"name": "C12 RunEnd status equals what the caller observes", "check": runend_status},
